@@ -61,7 +61,7 @@ def _ops_for(rng, d, thorough):
             n = 20000 if thorough and rng.random() < 0.3 else 2000
         ops.append({'op': 'sample_cond', 'cols': subset, 'kinds': _rand_values(rng, size),
                     'q': [round(rng.random(), 4) for _ in subset],
-                    'container': rng.choice(['dict', 'series', 'series']),
+                    'container': rng.choice(['dict', 'series', 'series', 'series_int', 'dict_int']),
                     'order': rng.choice(['asc', 'desc', 'perm', 'perm']),
                     'perm_seed': rng.randrange(10**6), 'n': n,
                     'reuse': rng.random() < 0.6})
@@ -178,9 +178,12 @@ def _container(op, names, values):
     elif op['order'] == 'perm':
         import random as _random
         _random.Random(op.get('perm_seed', 0)).shuffle(pairs)     # any order, incl. 3-cycles
-    if op['container'] == 'dict':
+    if op['container'] in ('series_int', 'dict_int'):
+        pairs = [(k, int(round(v))) for k, v in pairs]     # integer-valued conditions
+    if op['container'] in ('dict', 'dict_int'):
         return dict(pairs)
-    return pd.Series([v for _, v in pairs], index=[k for k, _ in pairs])
+    ser = pd.Series([v for _, v in pairs], index=[k for k, _ in pairs])
+    return ser.astype('int64') if op['container'] == 'series_int' else ser
 
 
 def _find_perms(mean, cov, ref_mean, ref_cov, free_names, zcols):
@@ -211,6 +214,8 @@ def _check_cond(ctx, run, model, train_df, op, recognised):
               for nm, k, q in zip(names, op['kinds'], op['q'])]
     n = op['n']
     conditions = _container(op, names, values)
+    if op['container'] in ('series_int', 'dict_int'):
+        values = [float(int(round(v))) for v in values]       # what was actually passed
     fp0 = fingerprint(conditions)
     cond = {'d': d, 'n': n, 'k': len(cols), 'container': op['container'],
             'config': run['config']['form']}
@@ -220,8 +225,10 @@ def _check_cond(ctx, run, model, train_df, op, recognised):
         out = outcome(model.sample, n, conditions=conditions)
     ctx.stats['sample_calls'] += 1
     ctx.stats['draw_calls_recorded'] += len(rec.calls)
-    if op['container'] == 'series':
+    if op['container'].startswith('series'):
         ctx.probes['series_container'] += 1
+    if op['container'].endswith('_int'):
+        ctx.probes['integer_typed_conditions'] += 1
     # (c) conditions object untouched
     if fingerprint(conditions) != fp0:
         ctx.violate('c_conditions_unmodified', SUBJECT,
@@ -348,6 +355,27 @@ def _check_cond(ctx, run, model, train_df, op, recognised):
                                     'column %r row %d: sampled %r, percent_point(Phi(z)) = %r'
                                     % (name, i, got, ref), **cond)
                     ctx.stats['rows_refined_exactly'] += n
+    if proto == 'unrecognised' and ref_ok and len(calls) == 1 and calls[0]['name'] == 'normal' \
+            and len(idx_free) == 1:
+        # protocol class 2: one free column drawn with normal(loc, scale[, size])
+        a_ = list(calls[0]['args'])
+        kw_ = calls[0]['kwargs']
+        loc = kw_.get('loc', a_[0] if len(a_) > 0 else 0.0)
+        scale = kw_.get('scale', a_[1] if len(a_) > 1 else 1.0)
+        try:
+            loc = float(np.ravel(loc)[0])
+            scale = float(np.ravel(scale)[0])
+            proto = 'one_conditional_normal_draw'
+        except Exception:
+            proto = 'unrecognised'
+        if proto != 'unrecognised':
+            want_sd = math.sqrt(max(float(ref_cov[0, 0]), 0.0))
+            if not (np.isclose(loc, ref_mean[0], rtol=1e-6, atol=1e-6)
+                    and np.isclose(scale, want_sd, rtol=1e-6, atol=1e-6)):
+                ctx.violate('b_conditional_law_of_recorded_draw', SUBJECT,
+                            'single free column drawn with normal(loc=%.6f, scale=%.6f); reference '
+                            'conditional mean %.6f and standard deviation %.6f'
+                            % (loc, scale, float(ref_mean[0]), want_sd), **cond)
     if proto == 'unrecognised':
         ctx.probes['protocol_unrecognised'] += 1
     # (c) re-use of the same container under the same pinned states -> same frame
